@@ -11,6 +11,7 @@ pub mod c06;
 pub mod c11;
 pub mod c13;
 pub mod c15;
+pub mod c16;
 pub mod c17;
 pub mod c18;
 pub mod c19;
@@ -34,7 +35,7 @@ macro_rules! simple_checks {
     ($($id:literal => $m:ident),* $(,)?) => {
         pub fn meta(id: &str, tier: &str) -> Option<Meta> {
             match id {
-                "C01" | "C02" | "C04" | "C07" | "C08" | "C09" => Some(c01::meta(id, tier)),
+                "C01" | "C02" | "C04" | "C07" | "C08" | "C09" | "C16" => Some(c01::meta(id, tier)),
                 $($id => Some($m::meta(tier)),)*
                 _ => None,
             }
@@ -42,7 +43,7 @@ macro_rules! simple_checks {
 
         pub fn run(id: &str, ctx: &mut Ctx) {
             match id {
-                "C01" | "C02" | "C04" | "C07" | "C08" | "C09" => c01::run(id, ctx),
+                "C01" | "C02" | "C04" | "C07" | "C08" | "C09" | "C16" => c01::run(id, ctx),
                 $($id => $m::run(ctx),)*
                 _ => crate::engine::machinery("unknown property id"),
             }
@@ -50,7 +51,7 @@ macro_rules! simple_checks {
 
         pub fn replay(id: &str, ctx: &mut Ctx, path: &[usize]) {
             match id {
-                "C01" | "C02" | "C04" | "C07" | "C08" | "C09" => c01::replay(id, ctx, path),
+                "C01" | "C02" | "C04" | "C07" | "C08" | "C09" | "C16" => c01::replay(id, ctx, path),
                 $($id => $m::replay(ctx, path),)*
                 _ => crate::engine::machinery("replay not supported for this property"),
             }
